@@ -6,6 +6,7 @@
 package app
 
 import (
+	"hash"
 	"math"
 
 	m "github.com/Eyevinn/dash-mpd/mpd"
@@ -969,3 +970,145 @@ func sumChunkDurs(chunks []chunk, n int) int {
 //@   wiring
 //@ func createAudioSegment
 //@   wiring
+
+// ---------------------------------------------------------------------------
+// C10: key ids, keys and init protection data
+
+// kidPrefixed / keyPrefixed: ids derived by kidFromString start with the three marker bytes.
+func kidPrefixed(kid id16) bool { return kid[0] == kidStart[0] && kid[1] == kidStart[1] && kid[2] == kidStart[2] }
+func keyPrefixed(key id16) bool { return key[0] == keyStart[0] && key[1] == keyStart[1] && key[2] == keyStart[2] }
+
+// kidToKey / keyToKid: the key of a key id differs from it exactly in the three marker bytes.
+//@ func kidToKey
+//@   requires kidPrefixed(kid)
+//@   ensures  keyPrefixed(key) && forall i in [3, 16) :: key[i] == kid[i]
+//@   loop 1 invariant 0 <= i && i <= 3 && forall j in [0, i) :: key[j] == keyStart[j]
+//@   loop 1 invariant forall j in [3, 16) :: key[j] == kid[j]
+//@   loop 1 invariant forall j in [0, 16) :: kid[j] == old(kid)[j]
+//@   loop 1 decreases 3 - i
+//@ func keyToKid
+//@   requires keyPrefixed(key)
+//@   ensures  kidPrefixed(kid) && forall i in [3, 16) :: kid[i] == key[i]
+//@   loop 1 invariant 0 <= i && i <= 3 && forall j in [0, i) :: kid[j] == kidStart[j]
+//@   loop 1 invariant forall j in [3, 16) :: kid[j] == key[j]
+//@   loop 1 invariant forall j in [0, 16) :: key[j] == old(key)[j]
+//@   loop 1 decreases 3 - i
+
+// lemmaKidKeyInverse: the licence endpoint's key for a key id maps back to that id.
+//@ lemma lemmaKidKeyInverse
+//@   requires kidPrefixed(kid)
+func lemmaKidKeyInverse(kid id16) {
+	k := keyToKid(kidToKey(kid))
+	assert(forall(0, 16, func(i int) bool { return k[i] == kid[i] }))
+}
+
+// md5 is outside the repository.  Assumed of it (hash.Hash documentation): Write never fails
+// and consumes all of p; Sum appends the 16-byte digest of the current state to b without
+// changing the state; the state after writing n zero bytes is a function of the prior state
+// and n (determinism).  ghostHashState is the abstract digest state per hash object.
+var ghostHashState map[hash.Hash]int
+
+func md5Init() int                { return 0 }
+func md5StepZeros(st, n int) int  { return 0 }
+func md5Digest(st, i int) byte    { return 0 }
+func allZero(p []byte) bool       { return forall(0, len(p), func(i int) bool { return p[i] == 0 }) }
+
+//@ uninterpreted md5Init
+//@ uninterpreted md5StepZeros
+//@ uninterpreted md5Digest
+
+//@ extern func crypto/md5.New() (h)
+//@   ensures h != nil && ghostHashState[h] == md5Init()
+//@   assigns ghostHashState[*]
+//@ extern func hash.Hash.Sum(h, b) (r)
+//@   ensures len(r) == len(b) + 16 && forall i in [0, 16) :: r[len(b)+i] == md5Digest(ghostHashState[h], i)
+//@   allocates
+//@ extern func hash.Hash.Write(h, p) (n, err)
+//@   ensures err == nil && n == len(p)
+//@   ensures allZero(p) ==> ghostHashState[h] == md5StepZeros(old(ghostHashState[h]), len(p))
+//@   assigns ghostHashState[*]
+
+// specKid: THE key id of this server.  kidFromString does not hash its argument (Sum(b) only
+// appends the digest of the empty state to b), so every derivation - from the asset name at
+// load time and from the licence URL in the MPD - gives these same 16 bytes.
+func specKid(i int) byte {
+	if i < 3 {
+		return kidStart[i]
+	}
+	return md5Digest(md5StepZeros(md5Init(), 16), i)
+}
+
+func isSpecKid(kid id16) bool { return forall(0, 16, func(i int) bool { return kid[i] == specKid(i) }) }
+
+// kidFromString: every derived key id carries the marker prefix, so kidToKey never panics on it.
+//@ func kidFromString
+//@   ensures kidPrefixed(result)
+//@   ensures sameForAllInputs: isSpecKid(result)
+//@   assigns ghostHashState[*]
+//@   loop 1 invariant forall j in [3, 16) :: o[j] == specKid(j)
+//@   loop 1 invariant 0 <= i && i <= 3 && len(o) == 16 && forall j in [0, i) :: o[j] == kidStart[j]
+//@   loop 1 decreases 3 - i
+
+// keyOfKid: the content key belonging to a key id (what the licence endpoint hands out).
+func keyOfKid(key, kid id16) bool {
+	return keyPrefixed(key) && forall(3, 16, func(i int) bool { return key[i] == kid[i] })
+}
+
+// strHasPrefix: strings.HasPrefix (uninterpreted in proofs).
+func strHasPrefix(s, prefix string) bool { return len(s) >= len(prefix) && s[:len(prefix)] == prefix }
+
+//@ uninterpreted strHasPrefix
+//@ extern func strings.HasPrefix(s, prefix) (r)
+//@   ensures r == strHasPrefix(s, prefix)
+
+// encWanted: codecs for which the server offers encryption.
+func encWanted(codec string) bool { return strHasPrefix(codec, "avc") || strHasPrefix(codec, "mp4a.40") }
+
+// addEncryption: unless the asset is pre-encrypted, the representation gets encryption data
+// for both schemes, built for THE server key id, with the key the licence endpoint returns.
+//@ func (*RepData).addEncryption
+//@   wiring
+//@   ensures prepared: result == nil ==> r.PreEncrypted || (r.encData != nil && isSpecKid(r.encData.keyID) && keyOfKid(r.encData.key, r.encData.keyID) && haskey(r.encData.initEnc, "cenc") && haskey(r.encData.initEnc, "cbcs"))
+//@   callsite genEncInit requires initCarriesServerKid: isSpecKid(arg_kid)
+//@   loop 1 invariant (rangeidx >= 1 ==> haskey(red.initEnc, "cbcs")) && (rangeidx >= 2 ==> haskey(red.initEnc, "cenc"))
+
+// readInit: every successfully loaded representation with an encryptable codec is either
+// marked pre-encrypted or has its encryption data - on every path, also when the media
+// timescale was already known (representation data restored from the cache).
+//@ func (*RepData).readInit
+//@   wiring
+//@   ensures encryptable: result == nil && encWanted(r.Codecs) ==> r.PreEncrypted || r.encData != nil
+
+// LiveMPD: protection is only announced for assets that are not pre-encrypted, and the
+// ClearKey default_KID is THE server key id (the one in the init segments' tenc boxes).
+//@ func LiveMPD
+//@   wiring
+//@   callsite NewContentProtection requires notPreEncrypted: !a.refRep.PreEncrypted
+//@   callsite id16.String requires advertisedKidIsInitKid: isSpecKid(arg0)
+
+// encryptFrags: ClearKey fragments are encrypted with the stored key of the representation
+// (keyOfKid of the advertised key id, by addEncryption); pre-encrypted data is refused.
+//@ func encryptFrags
+//@   wiring
+//@   ensures refusedIfPreEncrypted: rp.encData == nil && rp.PreEncrypted ==> result != nil
+//@   callsite EncryptFragment requires cencUsesLoadedProtectData: cfg.DRM == "eccp-cenc" ==> arg3 == rp.encData.initEnc["cenc"].pd
+//@   callsite EncryptFragment requires cbcsUsesLoadedProtectData: cfg.DRM == "eccp-cbcs" ==> arg3 == rp.encData.initEnc["cbcs"].pd
+//@   callsite EncryptFragment requires clearKeyUsesStoredKey: (cfg.DRM == "eccp-cenc" || cfg.DRM == "eccp-cbcs") ==> len(arg1) == 16 && forall i in [0, 16) :: arg1[i] == rp.encData.key[i]
+
+// Two ground facts about strings.TrimPrefix (string reasoning is outside the solver's reach).
+//@ extern func strings.TrimPrefix(s, prefix) (r)
+//@   ensures s == "eccp-cenc" && prefix == "eccp-" ==> r == "cenc"
+//@   ensures s == "eccp-cbcs" && prefix == "eccp-" ==> r == "cbcs"
+
+// matchInit: with ClearKey DRM the init segment served for an encryptable representation is
+// the protected init built at load time for the requested scheme (never the clear one).
+//@ func matchInit
+//@   wiring
+//@   ensures cencInit: ret1 == nil && ret0.isInit && cfg.DRM == "eccp-cenc" && ret0.rep.encData != nil ==> ret0.init == ret0.rep.encData.initEnc["cenc"].initRaw
+//@   ensures cbcsInit: ret1 == nil && ret0.isInit && cfg.DRM == "eccp-cbcs" && ret0.rep.encData != nil ==> ret0.init == ret0.rep.encData.initEnc["cbcs"].initRaw
+//@   ensures clearInit: ret1 == nil && ret0.isInit && (cfg.DRM == "" || ret0.rep.encData == nil) ==> ret0.init == ret0.rep.initBytes
+
+// laURLHandlerFunc: only key ids issued by this server are turned into keys.
+//@ func (*Server).laURLHandlerFunc
+//@   wiring
+//@   callsite kidToKey requires issuedKid: kidPrefixed(arg_kid)
